@@ -60,6 +60,8 @@ var exprVocab = []vocab{
 	{"Unknown", tokenizers.Keyword, "YES"}, {"Unknown", tokenizers.Keyword, "T"}, {"Unknown", tokenizers.Keyword, "MAYBE"},
 	// identifiers that are spelled like operators (a quoted identifier "and" is a word, not the operator)
 	{"Variable", tokenizers.Word, "and"}, {"Variable", tokenizers.Word, "NULL"}, {"Variable", tokenizers.Word, "not"}, {"Variable", tokenizers.Word, "+"},
+	// a quoted identifier made of one blank names a variable (only the empty one names nothing; seeded C02-r8-1)
+	{"Variable", tokenizers.Word, " "},
 }
 
 // representative 16-symbol vocabulary (one operator per level)
